@@ -147,7 +147,24 @@ def rule_source(ctx, cd):
     N = cd.N
 
     def following_expr(t, rx):
+        """expressions that follow a text match, found on the *rendered* template paths (template variables, string building
+        and helper macros expanded) - falls back to the raw output nodes when a body has too many paths to enumerate"""
+        from nvsa import j2text
         out = []
+        bodies = [m.body for m in cd.ts.macros(t).values()] + [[n for n in t.ast.body if not isinstance(n, N.Macro)]]
+        rxp = re.compile(rx.replace(r"\s+$", r"\s+").replace(r"\s*$", r"\s*").replace(" $", " ").rstrip("$") + r"(Pz\d+z)")
+        try:
+            for body in bodies:
+                for p_ in j2text.render_paths(N, body, limit=2048, macros=cd.ts.macros(t)):
+                    for m in rxp.finditer(p_.text):
+                        e = p_.xs_of(m.group(1))
+                        item = (e, [(c, pol) for c, pol in p_.conds], None)
+                        if e is not None and item not in out:
+                            out.append(item)
+            if out:
+                return out
+        except AnalysisError:
+            out = []
         for node, stack in j2front.walk(t.ast):
             if isinstance(node, N.Output):
                 parts = node.nodes
@@ -197,8 +214,13 @@ def rule_source(ctx, cd):
     for lang, fname in (("c", "definitions.j2"),):
         t = cd.ts.get(lang, fname)
         m = cd.ts.macro(t, "generate_metadata")
-        txt = "".join(d.data if isinstance(d, N.TemplateData) else "{" + xs(d) + "}" for o in m.find_all(N.Output) for d in o.nodes)
-        ok = '_FULL_NAME_             "{t.full_name}"' in txt and '_FULL_NAME_AND_VERSION_ "{t.full_name}.{t.version.major}.{t.version.minor}"' in txt
+        from nvsa import j2text
+        from checks._codec import unplaceholder
+        ok = False
+        for p_ in j2text.render_paths(N, m.body, macros=cd.ts.macros(t)):
+            txt = unplaceholder(p_, p_.text)
+            if re.search(r'_FULL_NAME_ "\{t\.full_name\}"', txt) and re.search(r'_FULL_NAME_AND_VERSION_ "\{t\.full_name\}\.\{t\.version\.major\}\.\{t\.version\.minor\}"', txt):
+                ok = True
         ctx.ob(R, t.rel, "c: _FULL_NAME_ / _FULL_NAME_AND_VERSION_ <- t.full_name, t.version.major.minor", ok, "", m.lineno)
     # array capacity and union option count (C)
     t = cd.ts.get("c", "definitions.j2")
@@ -243,7 +265,14 @@ def rule_defuse(ctx, cd):
     defined, used = {}, {}
     for t in cd.ts.of_lang("c", "templates"):
         for o in t.ast.find_all(N.Output):
-            s = "".join(d.data if isinstance(d, N.TemplateData) else "\x01" for d in o.nodes)
+            from nvsa import j2text
+            pieces = []
+            for d in o.nodes:
+                if isinstance(d, N.TemplateData):
+                    pieces.append(d.data)
+                else:   # identifier text built by an expression ('%s_%s_X_' | format(..), a ~ '_X_') counts as template text
+                    pieces.extend(x if isinstance(x, str) else "\x01" for x in j2text._expand(N, d, j2text.TPath()))
+            s = "".join(pieces)
             s = re.sub(r"//[^\n]*", " ", s)
             for m in re.finditer(r"\x01((?:_\x01)?_[A-Za-z][A-Za-z0-9_]*_)\b", s):
                 suf = m.group(1).replace("\x01", "<f>")
